@@ -1443,6 +1443,24 @@ class ModuleScope(VhdlScope):
         "xnor",
         "xor",
         "default",
+        # additional reserved words of VHDL-2008
+        "assume",
+        "assume_guarantee",
+        "context",
+        "cover",
+        "fairness",
+        "force",
+        "parameter",
+        "property",
+        "protected",
+        "release",
+        "restrict",
+        "restrict_guarantee",
+        "sequence",
+        "strong",
+        "vmode",
+        "vprop",
+        "vunit",
     }
 
     _additional_reserved = {
